@@ -72,6 +72,26 @@ func writeEvent(w http.ResponseWriter, evt Event) (int, error) {
 // TODO(rfindley): consider a different API here that makes failure modes more
 // apparent.
 func scanEvents(r io.Reader) iter.Seq2[Event, error] {
+	return func(yield func(Event, error) bool) {
+		for se, err := range scanEventsT(r) {
+			if !yield(se.Event, err) {
+				return
+			}
+		}
+	}
+}
+
+// A scannedEvent is an [Event] along with whether it was properly terminated
+// by a blank line. An event that is not terminated was cut short by the end
+// of the stream, and may be truncated.
+type scannedEvent struct {
+	Event
+	terminated bool
+}
+
+// scanEventsT is like [scanEvents], but also reports whether each event was
+// terminated by a blank line.
+func scanEventsT(r io.Reader) iter.Seq2[scannedEvent, error] {
 	reader := bufio.NewReader(r)
 
 	// TODO: investigate proper behavior when events are out of order, or have
@@ -83,7 +103,7 @@ func scanEvents(r io.Reader) iter.Seq2[Event, error] {
 		retryKey = []byte("retry")
 	)
 
-	return func(yield func(Event, error) bool) {
+	return func(yield func(scannedEvent, error) bool) {
 		// iterate event from the wire.
 		// https://developer.mozilla.org/en-US/docs/Web/API/Server-sent_events/Using_server-sent_events#examples
 		//
@@ -97,7 +117,7 @@ func scanEvents(r io.Reader) iter.Seq2[Event, error] {
 			evt     Event
 			dataBuf *bytes.Buffer // if non-nil, preceding field was also data
 		)
-		yieldEvent := func() bool {
+		yieldEvent := func(terminated bool) bool {
 			if dataBuf != nil {
 				evt.Data = dataBuf.Bytes()
 				dataBuf = nil
@@ -105,7 +125,7 @@ func scanEvents(r io.Reader) iter.Seq2[Event, error] {
 			if evt.Empty() {
 				return true
 			}
-			if !yield(evt, nil) {
+			if !yield(scannedEvent{evt, terminated}, nil) {
 				return false
 			}
 			evt = Event{}
@@ -114,14 +134,15 @@ func scanEvents(r io.Reader) iter.Seq2[Event, error] {
 		for {
 			line, err := reader.ReadBytes('\n')
 			if err != nil && !errors.Is(err, io.EOF) {
-				yield(Event{}, fmt.Errorf("error reading event: %v", err))
+				yield(scannedEvent{}, fmt.Errorf("error reading event: %v", err))
 				return
 			}
 			line = bytes.TrimRight(line, "\r\n")
 			isEOF := errors.Is(err, io.EOF)
 
 			if len(line) == 0 {
-				if !yieldEvent() {
+				// A blank line at EOF is not a line at all: the stream simply ended.
+				if !yieldEvent(!isEOF) {
 					return
 				}
 				if isEOF {
@@ -131,7 +152,12 @@ func scanEvents(r io.Reader) iter.Seq2[Event, error] {
 			}
 			before, after, found := bytes.Cut(line, []byte{':'})
 			if !found {
-				yield(Event{}, fmt.Errorf("%w: malformed line in SSE stream: %q", errMalformedEvent, string(line)))
+				cause := errMalformedEvent
+				if isEOF {
+					// The line may simply have been cut short by the end of the stream.
+					cause = errTruncatedLine
+				}
+				yield(scannedEvent{}, fmt.Errorf("%w: malformed line in SSE stream: %q", cause, string(line)))
 				return
 			}
 			switch {
@@ -152,7 +178,7 @@ func scanEvents(r io.Reader) iter.Seq2[Event, error] {
 			}
 
 			if isEOF {
-				yieldEvent()
+				yieldEvent(false)
 				return
 			}
 		}
@@ -321,6 +347,11 @@ var ErrEventsPurged = errors.New("data purged")
 // This is a hard error indicating corrupted data or protocol violations, as opposed to
 // transient I/O errors which may be retryable.
 var errMalformedEvent = errors.New("malformed event")
+
+// errTruncatedLine is the [errMalformedEvent] reported for a malformed line
+// that was terminated by the end of the stream rather than by a newline: it
+// may be the prefix of a well-formed line.
+var errTruncatedLine = fmt.Errorf("%w: truncated line at end of stream", errMalformedEvent)
 
 // After implements [EventStore.After].
 func (s *MemoryEventStore) After(_ context.Context, sessionID, streamID string, index int) iter.Seq2[[]byte, error] {
